@@ -121,6 +121,42 @@ CHECKS = {
         technique='explicit enumeration of metric configurations x architectures x evaluator scripts',
         ref='4 (C17)'),
 
+    'C05': dict(
+        text='E3: for every driver spec (one per stateful shortcut in the code: feasibility mask, excluded cache, graph caches, '
+             'copy-on-assign, linked/forced choices) and both encoders, EVERY sequence up to depth 3 (thorough 4) over {decode(x, '
+             'create), enumerate, statistics, fix, free, mutate returned instance, pickle round trip} is replayed on a fresh '
+             'processor and the complete observable state afterwards is compared with a fresh processor with the same fixed '
+             'values; returned instances must be independent objects; decode tables from sub-processes with hash seeds {0,1,2} x 3 '
+             'node-id assignments must be identical.',
+        note='Trusted: the differential oracle (fresh processor); process-wide caches are shared within a worker, violations are '
+             're-run in a fresh process.',
+        technique='exhaustive enumeration of operation histories up to a depth bound, differential oracle vs fresh object',
+        ref='4 (C05), 3.5 E3'),
+    'C08': dict(
+        text='E3 on a family of live graph objects: every sequence (depth 3, thorough 4) of derive/decode operations applied to any '
+             'live object (copy, every offered selection option, every valid connection set, constrain on a copy, confirmed graph, '
+             'decode through a processor); all live objects are completely re-observed after every operation.',
+        note='Raw attributes of shared node objects are excluded from the observation (documented as shared); observed through '
+             'valid connection sets and feasibility instead.',
+        technique='exhaustive enumeration of operation histories over a family of live objects, re-observation after every step',
+        ref='4 (C08)'),
+    'C15': dict(
+        text='E3 over {fix(v,val), free(v)}: all sequences up to depth 3/4 over all selection and design-variable variables and all '
+             'values on 200+ subjects and both encoders; after every sequence the variables, full decode table, restricted '
+             'enumeration, counts and statistics are compared with the unfixed problem filtered by the fixed map (subset law, both '
+             'inclusions); every rejected operation (connection variable, out-of-range) must raise and change nothing.',
+        note='Trusted: the unfixed problem of a fresh processor as reference.',
+        technique='exhaustive enumeration of fix/free histories, subset-law oracle',
+        ref='4 (C15)'),
+    'C18': dict(
+        text='Every single structural edit (node/edge of every type/start node/constraint) on copy or original breaks equality and '
+             'undoing restores it; pickle round trips of graph and processor and builds in sub-processes with 3 hash seeds x 3 id '
+             'assignments are recognised as the same design space with identical variables and decode tables; over all pairs of '
+             '~19k graphs same fingerprint <=> same structure; GML and DOT exports parsed back contain every node and adjacency.',
+        note='Values are not part of equality; fingerprints are compared inside one process (they are process-local by construction).',
+        technique='exhaustive enumeration of single edits and configurations (hash seed x id assignment), all-pairs grouping',
+        ref='4 (C18)'),
+
     'C09': dict(
         text='Bounded-exhaustive exploration of connector settings (all type combinations up to 2x2, every existence '
              'pattern, every single exclusion; larger shapes in thorough) on the real matrix generator; oracle is brute-force '
@@ -131,7 +167,7 @@ CHECKS = {
         ref='4 (C09)'),
 }
 
-READY = {'C01', 'C02', 'C03', 'C04', 'C06', 'C07', 'C09', 'C10', 'C11', 'C12', 'C13', 'C14', 'C16', 'C17'}
+READY = {'C01', 'C02', 'C03', 'C04', 'C05', 'C06', 'C07', 'C08', 'C09', 'C10', 'C11', 'C12', 'C13', 'C14', 'C15', 'C16', 'C17', 'C18'}
 
 NOT_YET = {
 }
